@@ -1,7 +1,7 @@
 # Prototype spec v3 for alloc.rs: opaque sub-invariants + fact lemmas (design probe)
-LEMMAS = open('/tmp/probe/alloc/sem_lemmas.rs').read() + open('/tmp/probe/alloc/gen_sem.rs').read()
+LEMMAS = open('/verif/design-probes/verus-alloc/sem_lemmas.rs').read() + open('/verif/design-probes/verus-alloc/gen_sem.rs').read()
 
-OP_OK = open('/tmp/probe/alloc/op_ok.rs').read()
+OP_OK = open('/verif/design-probes/verus-alloc/op_ok.rs').read()
 
 PRELUDE0 = OP_OK + r'''
 impl<const N: usize> RegisterAllocator<N> {
